@@ -35,6 +35,8 @@ import LitexModel.Export.Adapt
   call fieldextract <offset> <size> <word>
   call accepts <alignment> <aw> <paging> <busword> ; <bank> ; ...   -> ok | rejected   (SoCError at build time)
   call nlocs <alignment> <aw> <paging>
+  call ldregions <reset address> ; <name> <origin> <size> <decode> <linker> ; ...
+       -> `name:origin:length ...` of regions.ld / memory.x's MEMORY block # _stext
   call slavecell <master wbword|wbbyte|axil> <slave wbword|wbbyte|axil> <busByte 0|1> <slave dw> <bus dw> <aw> <depth> <byte address>
        -> <cell> <32-bit lane>     (the storage cell an access at that address reaches through add_master/add_slave adapters)
   call chainword <slave kind> <busByte> <sh> <aw> <bus byte address>   -> bus-word index at the slave's own interface ("s2m" adapters)
@@ -123,6 +125,14 @@ def call (args : List String) : Option String :=
     let e := (memExport regions).map fun p => s!"{p.1}:{p.2.1}:{p.2.2}"
     let sel := (selectedSlaves (← aw.toNat?) (← dw.toNat?) regions (← a.toNat?)).map toString
     some s!"{unwords e} # {if sel.isEmpty then "-" else unwords sel}"
+  | "ldregions" :: reset :: rest => do
+    let regions ← ((splitSemi rest).filter (· ≠ [])).mapM fun ws =>
+      match ws with
+      | [n, o, sz, d, l] => do
+        some ((← n.toNat?), ({ origin := ← o.toNat?, size := ← sz.toNat?, decode := ← pBool d, linker := ← pBool l } : Region))
+      | _ => none
+    let (ld, st) := memoryX regions (← reset.toNat?)
+    some s!"{unwords (ld.map fun e => s!"{e.1}:{e.2.1}:{e.2.2}")} # {st}"
   | "constants" :: rest => do
     match addConstants [] (← rest.mapM pPair) with
     | some cs => some ("ok " ++ unwords (cs.map fun p => s!"{p.1}:{p.2}"))
